@@ -256,6 +256,8 @@ func main() {
 		c19Child(os.Args[2:])
 	case "c08child":
 		c08Child(os.Args[2:])
+	case "c08ingest":
+		c08IngestChild(os.Args[2:])
 	case "exec":
 		sc := bufio.NewScanner(os.Stdin)
 		sc.Buffer(make([]byte, 1<<20), 64<<20)
